@@ -232,7 +232,9 @@ def run(ck: Check):
                                         "block_raises": results[i].get("block_raises", False),
                                         "steps": results[i]["steps"]})
     ncrash = check_crashes(ck)
-    ck.run_fixed({"registration_during_a_service_tasks_stop": "C08:action-count"})
+    ck.run_fixed({"registration_during_a_service_tasks_stop": "C08:action-count",
+                  "component_service_task_keeps_its_teardown_action": "C08:cancelled-with-none",
+                  "task_started_on_an_outer_context_belongs_to_it": "C08:snapshot"})
     dist = {"actions": {}, "left": 0, "tasks": {}, "nested": 0, "cancel_seen": 0, "stop_seen": 0, "block_raises": 0}
     for r in results:
         dist["block_raises"] += bool(r.get("block_raises"))
